@@ -1,7 +1,7 @@
 (* C01 — Two endpoints built on the library interoperate, even across transport loss.
    Statements only.  Nothing else may be added to this file. *)
 From MQ Require Import Base.Prelude Alloc.Alloc Framing.Framing Framing.FramingProofs Conn.Types Conn.ConnRecord Conn.Step
-                       Corr.ConnTrace Conn.Scope Conn.Session Conn.IdsQuota Conn.Own Conn.OwnStep Conn.Run Conn.PairQos Conn.PairQos5 Conn.PairSeq Conn.PairSeq5 Conn.PairConc Conn.PairBi Conn.PairConc5 Conn.SessInv Conn.PairLoss Conn.PairLossAcc.
+                       Corr.ConnTrace Conn.Scope Conn.Session Conn.IdsQuota Conn.Own Conn.OwnStep Conn.Run Conn.PairQos Conn.PairQos5 Conn.PairSeq Conn.PairSeq5 Conn.PairConc Conn.PairBi Conn.PairConc5 Conn.SessInv Conn.PairLoss Conn.PairLossAcc Conn.PairLossS.
 
 (* what the pair property rests on, each proved for ALL states of one endpoint:
    (i) delivery in any fragmentation is the same byte stream (C09) *)
@@ -268,6 +268,19 @@ Theorem C01_pair_accounting1_after_handshake : forall c1 c2, c_store c1 = [] -> 
 Proof. exact accC_init. Qed.
 Print Assumptions C01_pair_accounting1_after_handshake.
 
+(* ... and the same with the roles the other way round: the SERVER publishes to the client across losses; the resumption is
+   the handshake seen from the other side (the server retransmits in the call that sends its CONNACK).  One statement:
+   safety, progress, nothing left, QoS 2 exactly once, QoS 1 at least once *)
+Theorem C01_pair_server_to_client_across_loss : forall gs gr,
+  role_server_ok gs = true -> role_client_ok gr = true -> 2 + g_idw gs <= MQTT_PACKET_SIZE_NO_LIMIT ->
+  forall l s, allS gs gr s -> Forall good_actS l ->
+  exists s1 s2, run_schedS gs gr s l = Some s1 /\ run_schedS gs gr s1 (drainS (measure s1)) = Some s2 /\
+                qsr s2 = [] /\ qrs s2 = [] /\ c_store (cs s2) = [] /\
+                map undup (filter q2 (delivered s2)) = map undup (filter q2 (published s1)) /\
+                (forall p, In p (published s1) -> k_type p = T_PUBLISH -> k_qos p = 1 -> In (undup p) (map undup (delivered s2))).
+Proof. exact server_to_client_across_loss. Qed.
+Print Assumptions C01_pair_server_to_client_across_loss.
+
 Theorem C01_pair_accounting_after_handshake : forall c1 c2, c_qos2 c2 = [] -> c_store c1 = [] -> accB (mkSys c1 c2 [] [] [] []).
 Proof. exact accB_init. Qed.
 Print Assumptions C01_pair_accounting_after_handshake.
@@ -524,3 +537,30 @@ Example C01_pair_concurrent_v5_nonvacuous :
   | _, _ => False
   end.
 Proof. vm_compute. repeat split; reflexivity. Qed.
+
+
+(* ... and the server-to-client variant runs through the same kind of schedule *)
+Example C01_pair_server_to_client_nonvacuous :
+  let gc := mkCfg RClient 65535 2 in
+  let gv := mkCfg RServer 65535 2 in
+  let cn := mkPkt 1 V311 0 0 false false [] None 0 0 14 false 0 false 0 None None None None None in
+  let ca := mkPkt 2 V311 0 0 false false [] None 0 0 4 true 0 false 0 None None None None None in
+  let ops_c := [OSetAutoPub true; OSend cn; ORecv [32;2;0;0] (PROk ca)] in
+  let ops_v := [OSetAutoPub true; ORecv [16;12;0;4;77;81;84;84;4;0;0;0;0;0] (PROk cn); OSend ca] in
+  let pb := fun id q pay => mkPkt 3 V311 id q false false [116] None pay 0 (7 + pay) false 0 false 0 None None None None None in
+  let sched := [PubS (pb 1 2 0); ToRS; LoseS; PubS (pb 2 1 1); ToRS; ToRS; LoseS; ToRS; ToSS; PubS (pb 3 2 5); LoseS; ToRS] in
+  k_history_ok gv (conn_new gv V311) ops_v /\ k_history_ok gc (conn_new gc V311) ops_c /\
+  match run_state gv (conn_new gv V311) ops_v, run_state gc (conn_new gc V311) ops_c with
+  | Some sv, Some cl =>
+      match run_schedS gv gc (mkSys sv cl [] [] [] []) sched with
+      | Some s1 =>
+          match run_schedS gv gc s1 (drainS (measure s1)) with
+          | Some s2 => map k_pid (published s1) = [1; 2; 3] /\ map (fun x => (k_pid x, k_dup x)) (delivered s2) = [(1, false); (2, false); (2, true); (3, true)] /\
+                       qsr s2 = [] /\ qrs s2 = [] /\ c_store (cs s2) = []
+          | None => False
+          end
+      | None => False
+      end
+  | _, _ => False
+  end.
+Proof. vm_compute. repeat split; try reflexivity; try discriminate; intros; try discriminate; auto. Qed.
